@@ -545,6 +545,8 @@ class CallMixin:
         nm["result"] = res
         sp = Spec(old, nm, oldnames=names, mode="assume")
         for lbl, en in ([] if pre_refuted else list(c.ensures.items()) + list(c.defines_ensures.items())):
+            if "loc_" in en:
+                continue        # a clause about the callee's own final locals: proved on its body, says nothing to a caller
             s1.assume(self.spec_truth(s1, en, cc.with_spec(sp)))
         for iv in visible_inv:
             s1.assume(self.spec_truth(s1, iv, cc.with_spec(Spec(s1, names, mode="assume"))))
@@ -561,6 +563,8 @@ class CallMixin:
             r = Raise(ec, w.V.ref(eo))
             sp2 = Spec(old, names, exc=r, mode="assume")
             for lbl, rs in ([] if pre_refuted else list(c.raises.items()) + list(c.defines_raises.items())):
+                if "loc_" in rs:
+                    continue
                 s2.assume(self.spec_truth(s2, rs, cc.with_spec(sp2)))
             for iv in visible_inv:
                 s2.assume(self.spec_truth(s2, iv, cc.with_spec(Spec(s2, names, mode="assume"))))
